@@ -77,6 +77,12 @@ impl BytesMut {
         ensures r@ == old(self)@.take(at as int), final(self)@ == old(self)@.skip(at as int),
             final(self).reserve_bound == old(self).reserve_bound
     { unimplemented!() }
+    // A-bytes-15: Buf::advance drops the first cnt bytes (panics beyond the length)
+    #[verifier::external_body]
+    pub fn advance(&mut self, cnt: usize)
+        requires cnt <= old(self)@.len()
+        ensures final(self)@ == old(self)@.skip(cnt as int), final(self).reserve_bound == old(self).reserve_bound
+    { unimplemented!() }
     // A-bytes-09: freeze keeps the contents
     #[verifier::external_body]
     pub fn freeze(self) -> (r: Bytes) ensures r@ == self@ { unimplemented!() }
